@@ -19,7 +19,8 @@ and emits one row (implementor, trait, method, class) per (impl block, trait met
   Fwd          exactly one call of the same method on the single inner value with the same arguments in order
   FwdOpt d     Option: Some -> forward, None -> literal d
   FwdAll c     Vec: for-loop / all / the hand-written folds (interest: never if any, always iff all, else sometimes; hint: max)
-  FwdLock d    reload: the same single call through try_lock!(self.inner.read()/write())
+  FwdLock d    reload: the same single call through try_lock!(self.inner.read()/write()) (blocking acquisition)
+  FwdTryLock d the same through try_read()/try_write() (at the call site or in a macro of the same file): skipped when the lock is busy
   Missing      the impl does not override the method (the trait default applies; defaults are extracted too)
   Seq2/Gate/PickInterest/PickHint/NewSpan/CloneSpan/TryClose/SelfCall/EventGate/Downcast   the shapes of Layered / Dispatch
   Const d      calls nothing, returns the literal d
@@ -146,6 +147,8 @@ T_PICK_HINT = ("if self.inner_is_registry { return outer_hint; } "
                "if super::subscriber_is_none(&self.subscriber) { return cmp::max(outer_hint, Some(inner_hint?)); } "
                "if inner_is_none && inner_hint == Some(LevelFilter::OFF) { return outer_hint; } "
                "cmp::max(outer_hint, inner_hint)")
+T_TRY_LOCK = ("($lock:expr) => { try_lock!($lock, else return) }; ($lock:expr, else $els:expr) => { "
+              "if let ::core::result::Result::Ok(l) = $lock { l } else if std::thread::panicking() { $els } else { panic!(\"lock poisoned\") } };")
 T_IS_NONE = "unsafe { %s.downcast_raw(TypeId::of::<NoneLayerMarker>()) }.is_some()"
 
 DC = {
@@ -163,6 +166,7 @@ DC = {
      "if filter::is_psf_downcast_marker(id) && self.iter().any(|s| s.downcast_raw(id).is_none()) { return None; } "
      "self.iter().find_map(|s| s.downcast_raw(id))"): "DcVecNoneIfEmpty",
     ("if id == TypeId::of::<subscribe::NoneLayerMarker>() { return try_lock!(self.inner.read(), else return None).downcast_raw(id); } None"): "DcReload",
+    ("if id == TypeId::of::<subscribe::NoneLayerMarker>() { return try_read!(self.inner, else return None).downcast_raw(id); } None"): "DcReloadTry",
     ("if id == TypeId::of::<Self>() { return Some(NonNull::from(self).cast()); } "
      "self.subscriber.downcast_raw(id).or_else(|| self.inner.downcast_raw(id))"): "DcLayeredC",
     ("match id { id if id == TypeId::of::<Self>() => Some(NonNull::from(self).cast()), "
@@ -178,6 +182,8 @@ DC = {
 # ------------------------------------------------------------------------------------------------
 # classification of one method body
 
+_LOCAL_MACROS = {}     # macro_rules! defined in the file whose impl block is being classified: {name: body text}
+
 SINGLE_RECV = r"self\.(?:as_ref\(\)|deref\(\)|deref_mut\(\)|inner|subscriber|a|collector\(\))"
 
 
@@ -192,10 +198,25 @@ def classify(name, sig, body, ctx_extra=()):
     m = re.fullmatch(SINGLE_RECV + r"\.(\w+)\((.*)\);?", b)
     if m and m.group(1) == name and args_ok(m.group(2), params):
         return "Fwd"
-    # --- reload
-    m = re.fullmatch(r"try_lock!\(self\.inner\.(?:read|write)\(\)(?:, else return ?(.*?))?\)\.(\w+)\((.*)\);?", b)
-    if m and m.group(2) == name and args_ok(m.group(3), params):
-        return "(FwdLock %s)" % lit(m.group(1) or "")
+    # --- reload: one call through a lock guard.  FwdLock = the guard comes from the *blocking* `read()` / `write()` (through the
+    #     crate's `try_lock!`, whose body is pinned as a helper); FwdTryLock = from `try_read()` / `try_write()`, at the call site or
+    #     inside a macro defined in the same file: the callback is then skipped (the fallback literal) whenever the lock is busy.
+    m = re.fullmatch(r"(\w+)!\(self\.inner(?:\.(\w+)\(\))?(?:, else return ?(.*?))?\)\.(\w+)\((.*)\);?", b)
+    if m and m.group(4) == name and args_ok(m.group(5), params):
+        mac, how = m.group(1), m.group(2)
+        mode = None
+        if mac == "try_lock" and how in ("read", "write"):
+            mode = "FwdLock"
+        elif how in ("try_read", "try_write"):
+            mode = "FwdTryLock"
+        elif how is None and mac in _LOCAL_MACROS:
+            mb = _LOCAL_MACROS[mac]
+            if re.search(r"\.try_(?:read|write)\(\)", mb):
+                mode = "FwdTryLock"
+            elif re.search(r"\$\w+\.(?:read|write)\(\)", mb):
+                mode = "FwdLock"
+        if mode:
+            return "(%s %s)" % (mode, lit(m.group(3) or ""))
     # --- Option (Subscribe)
     m = re.fullmatch(r"if let Some\((?:ref |ref mut )?(\w+)\) = self \{ (\w+)\.(\w+)\((.*)\);? \}", b)
     if m and m.group(1) == m.group(2) and m.group(3) == name and args_ok(m.group(4), params):
@@ -392,6 +413,9 @@ def main(repo, out):
     impl_rows("Box<dyn Subscribe>", "Subscribe", sub_mod,
               r"impl\s*<C>\s*Subscribe<C> for Box<dyn Subscribe<C> \+ Send \+ Sync \+ 'static>[^{;]*\{", macro="subscriber_impl_body")
     impl_rows("Vec<S>", "Subscribe", sub_mod, r"impl\s*<C, S>\s*Subscribe<C> for alloc::vec::Vec<S>[^{;]*\{")
+    _LOCAL_MACROS.clear()
+    for mm, mbody, _, _ in find_blocks(reload_rs, r"macro_rules!\s*(\w+)\s*\{"):
+        _LOCAL_MACROS[mm.group(1)] = clean(mbody)
     impl_rows("reload::Subscriber", "Subscribe", reload_rs, r"impl\s*<S, C>\s*crate::Subscribe<C> for Subscriber<S>[^{;]*\{")
     impl_rows("Layered", "Subscribe", layered, r"impl\s*<C, A, B>\s*Subscribe<C> for Layered<A, B, C>[^{;]*\{")
     impl_rows("Identity", "Subscribe", sub_mod, r"impl\s*<C: Collect>\s*Subscribe<C> for Identity\s*\{")
@@ -403,6 +427,7 @@ def main(repo, out):
               r"impl\s*<S>\s*subscribe::Filter<S> for Box<dyn subscribe::Filter<S> \+ Send \+ Sync \+ 'static>\s*\{", macro="filter_impl_body")
     impl_rows("Option<F>", "Filter", filt_mod, r"impl\s*<F, S>\s*subscribe::Filter<S> for Option<F>[^{;]*\{")
     impl_rows("reload::Subscriber", "Filter", reload_rs, r"impl\s*<S, C>\s*crate::subscribe::Filter<C> for Subscriber<S>[^{;]*\{")
+    _LOCAL_MACROS.clear()
     impl_rows("And", "Filter", comb, r"impl\s*<A, B, S>\s*Filter<S> for And<A, B, S>[^{;]*\{")
     impl_rows("Or", "Filter", comb, r"impl\s*<A, B, S>\s*Filter<S> for Or<A, B, S>[^{;]*\{")
     impl_rows("Not", "Filter", comb, r"impl\s*<A, S>\s*Filter<S> for Not<A, S>[^{;]*\{")
@@ -449,6 +474,24 @@ def main(repo, out):
         helpers.append(("subscribe::" + hname, ok))
         if not ok:
             unrec.append("subscribe::%s body differs from the template" % hname)
+
+    # the lock protocol of the reload cell: `try_lock!` only unwraps the LockResult it is given (so `.read()` / `.write()` at the call
+    # site block), and Handle::modify runs the closure under the write guard
+    macros_rs = read(repo, "tracing-subscriber/src/macros.rs")
+    tl_body = one_block(macros_rs, r"macro_rules!\s*try_lock\s*\{", "macro try_lock", unrec)
+    ok = tl_body is not None and clean(tl_body) == T_TRY_LOCK
+    helpers.append(("macros::try_lock", ok))
+    if not ok:
+        unrec.append("macros.rs try_lock! differs from the template")
+    hfn = {}
+    for _, body, _, _ in find_blocks(reload_rs, r"impl\s*<T>\s*Handle<T>\s*\{"):
+        hfn.update(fns_in(body))
+    ok = "modify" in hfn and hfn["modify"][1] is not None and bool(re.search(
+        r"let mut lock = try_lock!\(inner\.write\(\), else return Err\(Error::poisoned\(\)\)\); f\(&mut \*lock\); drop\(lock\);", clean(hfn["modify"][1])))
+    ok = ok and "reload" in hfn and hfn["reload"][1] is not None and clean(hfn["reload"][1]) == "self.modify(|object| { *object = new_value.into(); })"
+    helpers.append(("reload::Handle::modify", ok))
+    if not ok:
+        unrec.append("reload::Handle::modify / reload: not `try_lock!(inner.write(), ..); f(&mut *lock); drop(lock);`")
 
     G = []
     G.append("(* GENERATED by translators/forwarding.py from tracing-core/src/{collect,dispatch,callsite}.rs and\n"
